@@ -706,6 +706,42 @@ func (x *Exec) modularContracts(fn *ssa.Function) []*Contract {
 	return out
 }
 
+// evaluableAtCallSite: a postcondition can be stated in the caller's terms (trial evaluation on a
+// throw-away copy of the state; "unknown identifier" means it names the callee's locals).
+func (x *Exec) evaluableAtCallSite(st *State, env *Env, ct *Contract, cl *Clause) (ok bool) {
+	ok = true
+	defer func() {
+		if r := recover(); r != nil {
+			e, isE := r.(engineErr)
+			if !isE || !strings.Contains(e.Error(), "unknown identifier") {
+				panic(r)
+			}
+			ok = false
+		}
+	}()
+	x.specMode++
+	defer func() { x.specMode-- }()
+	x.dry++
+	defer func() { x.dry-- }()
+	tmp := st.fork()
+	e2 := env.child()
+	for _, q := range ct.foralls {
+		if _, has := e2.lookup(q.name); !has {
+			e2.vars[q.name] = x.symValue(tmp, x.resolveType(env.pkg, q.typ), "try$"+q.name)
+		}
+	}
+	for _, v := range cl.vars {
+		vt := x.resolveType(env.pkg, v.typ)
+		if pt, isP := vt.Underlying().(*types.Pointer); isP && !foreignType(pt.Elem()) {
+			e2.vars[v.name] = &Ptr{cell: x.regionCell(pt.Elem()), sym: freshVar("try$"+v.name, SInt), mayNil: true}
+		} else {
+			e2.vars[v.name] = x.symValue(tmp, vt, "try$"+v.name)
+		}
+	}
+	x.evalBool(tmp, e2, cl.expr)
+	return
+}
+
 // applyContract: call site sees only the callee's contract.
 func (x *Exec) applyContract(st *State, fn *ssa.Function, cts []*Contract, args []Value) []Out {
 	res := fn.Signature.Results()
@@ -781,6 +817,19 @@ func (x *Exec) applyContract(st *State, fn *ssa.Function, cts []*Contract, args 
 		}
 		env.old = pre
 		env.oldEnv = &Env{vars: env.vars, pkg: env.pkg}
+		if len(ct.prelets) > 0 {
+			// entry values named by the contract: evaluated in the state before the call
+			x.specMode++
+			tmp := pre.fork()
+			tmp.apps = st.apps
+			tmp.ax = st.ax
+			for _, l := range ct.prelets {
+				env.vars[l.name] = x.eval(tmp, env, l.expr)
+			}
+			st.apps = tmp.apps
+			st.ax = tmp.ax
+			x.specMode--
+		}
 		// contract-level "forall v T": clauses mentioning v are not call preconditions; they
 		// qualify the postconditions that mention v (forall v :: requires(v) ==> ensures(v))
 		fa := map[string]bool{}
@@ -860,6 +909,10 @@ func (x *Exec) applyContract(st *State, fn *ssa.Function, cts []*Contract, args 
 			}
 			if mentionsEvents(cl.expr) {
 				// postconditions about the callee's own events / proof-script lets describe its body, not a fact the caller can use
+				continue
+			}
+			if !x.evaluableAtCallSite(st, env, ct, cl) {
+				// the clause names locals of the callee's body: nothing the caller can use (dropping a fact is sound)
 				continue
 			}
 			if len(fa) > 0 && mentionsIdent(cl.expr, fa) {
@@ -1192,6 +1245,10 @@ func (x *Exec) verifyContract(ct *Contract) (err error) {
 			err = fmt.Errorf("internal: %v", r)
 		}
 	}()
+	if os.Getenv("VERIF_DEBUG_INST") != "" {
+		fmt.Printf("enter %s specMode=%d dry=%d\n", ct.label(), x.specMode, x.dry)
+	}
+	x.specMode, x.dry = 0, 0 // never inherited from an earlier contract of the run
 	x.cur = ct
 	// symbolic execution of one contract has a time budget: changed code under annotations that
 	// no longer fit it (a loop that lost its invariant) can otherwise unroll without end
@@ -1363,9 +1420,12 @@ func (x *Exec) verifyContract(ct *Contract) (err error) {
 			for _, f := range finals {
 				var outs []specOut
 				var why string
+				smode, sdry := x.specMode, x.dry
 				func() {
 					defer func() {
 						if r := recover(); r != nil {
+							// a recovered panic must not leave the spec-mode / dry-run depth raised
+							x.specMode, x.dry = smode, sdry
 							e, ok := r.(engineErr)
 							if !ok || !strings.Contains(e.Error(), "unknown identifier") && !strings.Contains(e.Error(), "undefined on this path") && !strings.Contains(e.Error(), "on nil interface") {
 								panic(r)
@@ -1434,9 +1494,11 @@ func (x *Exec) verifyContract(ct *Contract) (err error) {
 			for _, f := range finals {
 				le := &Env{vars: map[string]Value{}, pkg: f.env.pkg}
 				skip := false
+				smode, sdry := x.specMode, x.dry
 				func() {
 					defer func() {
 						if r := recover(); r != nil {
+							x.specMode, x.dry = smode, sdry
 							e, ok := r.(engineErr)
 							if !ok || !strings.Contains(e.Error(), "unknown identifier") && !strings.Contains(e.Error(), "undefined on this path") {
 								panic(r)
